@@ -67,6 +67,23 @@ class Shard:
             return []
         exe, args = self.exes[cfg]
         timeout = timeout or (300 if self.quick else 1200)
+        if os.environ.get('VERIF_DUMP_LINES'):
+            # debugging aid: keep the exact driver input of every run
+            with open(os.path.join(os.environ['VERIF_DUMP_LINES'], '%s-%s-%d-%d.in' % (self.prop, cfg, self.index, len(lines))), 'w') as fh:
+                fh.write('\n'.join(lines) + '\n')
+        # slow instruments (valgrind) run a bounded subset of the workload: a prefix (stateful drivers) or a prefix plus an evenly
+        # spread sample (stateless drivers); lines that were not run are answered None, which every judge skips
+        all_lines = lines
+        pos = None
+        lim = (self.payload or {}).get('line_limit') if isinstance(self.payload, dict) else None
+        if lim and cfg in (self.payload.get('limited_cfgs') or ()) and len(lines) > lim:
+            if self.payload.get('line_mode') == 'spread':
+                head = lim // 2
+                step = max(1, (len(lines) - head) // max(1, lim - head))
+                pos = list(range(head)) + list(range(head, len(lines), step))[:lim - head]
+            else:
+                pos = list(range(lim))
+            lines = [all_lines[i] for i in pos]
         rc, out, err = run_driver(exe, '\n'.join(lines) + '\n', args=args, timeout=timeout, env=env)
         ol = out.split('\n')
         if ol and ol[-1] == '':
@@ -104,6 +121,12 @@ class Shard:
                 pass
         elif len(ol) != len(lines):
             self.harness_errors.append('driver %s answered %d of %d lines, rc=%s, stderr=%s' % (cfg, len(ol), len(lines), rc, err[-300:]))
+        if pos is not None:
+            full = [None] * len(all_lines)
+            for i, r in zip(pos, res):
+                full[i] = r
+            self.count('limited_lines_run', len(lines))
+            return full
         return res
 
     def result(self):
